@@ -541,7 +541,7 @@ func stageShared(seed uint64, thorough bool, res *childResult) {
 			"Keys (a second enumeration)": func() { enumerate(o.g, nil) },
 			"Equals(self)":                func() { o.g.Equals(o.g) },
 			"CompareTo(self)":             func() { o.g.CompareTo(o.g) },
-			"String":          func() { _ = fmt.Sprint(o.g) },
+			"String":                      func() { _ = fmt.Sprint(o.g) },
 		}
 		for name, use := range nestedUses {
 			progress("nested " + name + " in " + vh.Clip(o.v.Line(), 300))
@@ -647,7 +647,7 @@ func startWatchdog(limit time.Duration) {
 // childMain runs the stages and prints the result as JSON
 func childMain(seed uint64, thorough bool) {
 	// one JSON line per stage, flushed at once: what a stage found survives a crash of a later one
-	startWatchdog(40 * time.Second)
+	startWatchdog(120 * time.Second)
 	for _, st := range []func(uint64, bool, *childResult){stageDecodeHistory, stageAfterFailures, stageConcurrent, stageShared} {
 		res := &childResult{Counts: map[string]int{}}
 		st(seed, thorough, res)
@@ -667,9 +667,9 @@ func runChild(env *vh.Env, rep *vh.Report, seed uint64) {
 	cmd.Env = append(os.Environ(), "GOMEMLIMIT=4GiB")
 	var stdout, stderr lockedBuf
 	cmd.Stdout, cmd.Stderr = &stdout, &stderr
-	limit := 180 * time.Second
+	limit := 480 * time.Second // bounds hangs only; the stages take seconds on an idle machine
 	if env.Thorough {
-		limit = 900 * time.Second
+		limit = 1800 * time.Second
 	}
 	done := make(chan error, 1)
 	if err := cmd.Start(); err != nil {
